@@ -115,7 +115,18 @@ ArrMachine(which) ==
          [name |-> "ArgName", inputs |-> <<"xs", "y">>, inkinds |-> <<"[u64]", "u64">>, outkind |-> "u64",
           declared |-> <<Decl("P", <<"[u64]">>), DoneDecl>>, start |-> Target("P", <<XS>>),
           arms |-> <<TransArm("P", <<PEnds("x", "y")>>, Done(Add(EVar("y"), EVar("x")))), DoneArm>>]
-ArrNames == {"sum", "sumrev", "ends", "max", "len", "swap", "twolast", "argname"}
+    [] which = "tail2" ->     \* two element patterns after the spread; the guard compares them, the result tells them apart
+         mk("Tail2", 1, Target("T", <<XS>>),
+            <<GuardArm("T", <<PTail2("a", "b")>>,
+                       <<GTrans(Cond("gt", EVar("a"), EVar("b")), Done(Add(EVar("a"), L(100)))),
+                         GTrans(CAny, Done(Add(EVar("b"), L(200))))>>),
+              TransArm("T", <<POne("x")>>, Done(EVar("x")))>>, <<Decl("T", <<"[u64]">>)>>)
+    [] which = "ends3" ->     \* first element and the last two: 3 * first + 2 * (last but one) + last
+         mk("Ends3", 1, Target("E", <<XS>>),
+            <<TransArm("E", <<PEnds3("f", "a", "b")>>, Done(Add(Add(Add(Add(EVar("f"), EVar("f")), EVar("f")), Add(EVar("a"), EVar("a"))), EVar("b")))),
+              TransArm("E", <<PTail2("a", "b")>>, Done(Add(Add(EVar("a"), EVar("a")), EVar("b")))),
+              TransArm("E", <<POne("x")>>, Done(EVar("x")))>>, <<Decl("E", <<"[u64]">>)>>)
+ArrNames == {"sum", "sumrev", "ends", "max", "len", "swap", "twolast", "argname", "tail2", "ends3"}
 ArrInputs == <<<<AV(<<3>>)>>, <<AV(<<1, 2>>)>>, <<AV(<<2, 1>>)>>, <<AV(<<1, 2, 3>>)>>, <<AV(<<3, 1, 2>>)>>, <<AV(<<2, 2, 1, 4>>)>>>>
 
 (* literal payload patterns: arms of one state told apart by a literal, in both orders *)
